@@ -263,7 +263,41 @@ def case_text(acc, existing, op, form, k, v):
     return raw
 
 
-CASES = {"query": case_query, "special": case_special, "text": case_text}
+STR_TEXTS = ["k=%26", "k=%41", "a+b=c+d", "a%20b=1", "k=v;w", "a&&b", "a", "=", "%zz=1", "\xe9=%C3%A9", "k=%2526", "k=1&k=%3D", "a=%E2%82", "x=y#z", "k= v"]
+OTHER = "zz=9"
+
+
+def case_str_consistent(acc, op, ti):
+    """A query *string* argument with escapes, '+', ';' or blanks: what it contributes must be a function of the string alone - the
+    same pairs whether the URL had no query or an unrelated one (the statement: 'replaces all pairs whose key occurs in q and keeps
+    every other pair'; 'appends q's pairs after the existing ones')."""
+    text = STR_TEXTS[ti]
+    acc.evals += 1
+    acc.nontrivial += 1
+    outs = []
+    for existing in ("", OTHER):
+        u = impl.URL("http://h.com/p" + ("?" + existing if existing else "") + "#f")
+        try:
+            outs.append(("ok", Q.parse(getattr(u, op)(text).raw_query_string)))
+        except (TypeError, ValueError) as e:
+            outs.append((type(e).__name__,))
+    (a, b) = outs
+    if a[0] != "ok" or b[0] != "ok":
+        ok = a[0] == b[0]
+        exp = "the same verdict for both URLs"
+    else:
+        kept = [] if op == "with_query" else Q.parse(OTHER)
+        if op in ("update_query", "__mod__") and any(k == "zz" for k, _ in a[1]):
+            kept = []
+        exp = kept + a[1]
+        ok = b[1] == exp
+    if not ok:
+        acc.viol("str_consistent", (op, ti), observed={"on_empty_query": a, "on_%s" % OTHER: b}, expected=exp,
+                 msg="%s(%r): on a URL without query -> %r, on ?%s -> %r" % (op, text, a, OTHER, b))
+    return repr(outs)
+
+
+CASES = {"query": case_query, "special": case_special, "text": case_text, "str_consistent": case_str_consistent}
 SPECIALS = ["with_query(None)", "update_query(None)", "extend_query(None)", "with_query({})", "with_query('')", "extend_query({})",
             "update_query({})", "update_query('')", "without:", "without:a", "without:a,b", "without:zz", "without:A", "without:é,k",
             "without:", "without_each", "without_each_encoded", "bytes", "nested", "two_args", "arg_and_kwargs"]
@@ -281,6 +315,10 @@ def task_matrix(existing):
             states.add(s)
     for what in SPECIALS:
         states.add(case_special(acc, existing, what))
+    if existing == "":
+        for op in OPS + ["__mod__"]:
+            for ti in range(len(STR_TEXTS)):
+                states.add(case_str_consistent(acc, op, ti))
     acc.state_count = len(states)
     acc.sample({"existing": existing, "op": op, "form": form, "key": KEYS[ki], "value": repr(vi), "result": s, "backend": impl.backend}, 1)
     return acc.result()
